@@ -45,14 +45,21 @@ RULE = (
     "Non-trivial = both sides returned a floating-point result (not an agreed refusal); distinct by (function, arguments)."
 )
 ASSUMPTIONS = [
-    "relative tolerance 1e-12 with respect to the largest modulus within the returned array (scalars: the value itself, "
-    "floor 1e-300); compiled and interpreted code differ by libm / complex-power rounding only (measured worst 3e-14)",
+    "tolerance 1e-12 relative to the largest modulus within the returned array, with a floor of 1 on that scale for the "
+    "groups whose quantities are O(1) by construction (Lagrange basis polynomials - a partition of unity -, harmonic sums, "
+    "as1/as2 anomalous dimensions and matching elements, evolution kernels around the identity); pure relative for "
+    "couplings and scale variations.  Compiled and interpreted code differ by libm / complex-power / contraction "
+    "rounding only: measured worst 2.1e-13 (mellin_g18), 5.6e-14 (A_hg), <= 1e-14 elsewhere, couplings and scale "
+    "variations bitwise equal",
     "numba cache directory /verif/.build/nb/<sha256 over path+content of every file under $VERIF_REPO/src except "
     "__pycache__>: numba does not invalidate cached machine code when a callee in another file changes, so the cache is "
     "keyed on the tree; an unchanged tree reuses its cache (the first run after any source change compiles from scratch)",
     "arguments are passed in the types production passes them (order tuples of ints, ndarray towers, Python lists for "
     "beta vectors - numba 'reflected lists')",
-    "quad_ker_ad / quad_ker_ome and the end-to-end solve (9 min cold compile each) are exercised in the thorough tier only",
+    "quad_ker_ad / quad_ker_ome and the end-to-end solve (9 min cold compile each) are exercised in the thorough tier only; "
+    "their tolerance is 1e-10 (relative to the value, solve: relative to max(1, largest operator entry)) because the "
+    "kernel is the real part of a complex product (cancellation against an invisible modulus; measured worst 1.1e-13 on "
+    "300 points) and the solve feeds it through adaptive quadrature",
 ]
 LEVEL_TEXT = (
     "Generated-input differential between the compiled and the interpreted execution of the same sources, covering every "
@@ -60,6 +67,14 @@ LEVEL_TEXT = (
 )
 
 TOL = 1e-12
+# natural magnitude of the quantities of a group, used as a floor of the comparison scale where small outputs arise from
+# cancellations between O(1) terms (a Lagrange basis polynomial at a foreign node, harmonic-sum combinations at large N)
+SCALE_FLOOR = {"interpolation": 1.0, "harmonics": 1.0, "ad_as12": 1.0, "ome_as12": 1.0, "qcd_kernels": 1.0, "qed_kernels": 1.0,
+               "solve": 1.0}
+# The integration kernels return the REAL PART of a product of complex factors of very different magnitude (x^-N basis
+# function, Jacobian, kernel element): the result can be 10-100 times smaller than the modulus it was cancelled from and
+# no intermediate scale is visible from outside.  The end-to-end solve passes these values through adaptive quadrature.
+TOL_GROUP = {"quad_ker_ad": 1e-10, "quad_ker_ome": 1e-10, "solve": 1e-10}
 QUICK_GROUPS = ("qcd_kernels", "ome_as12", "ad_as12", "qed_kernels", "harmonics", "scale_variations", "couplings", "interpolation")
 THOROUGH_GROUPS = ("quad_ker_ad", "quad_ker_ome", "solve") + QUICK_GROUPS
 N_CASES = {"quick": 200, "thorough": 1500}
@@ -145,14 +160,14 @@ def _num(e):
     return None
 
 
-def compare(a, b, path="result"):
+def compare(a, b, path="result", floor=0.0, tol=TOL):
     """List of (kind, message) differences between two encoded results (a compiled, b interpreted)."""
     if a["k"] == "t" or b["k"] == "t":
         if a["k"] != b["k"] or len(a["v"]) != len(b["v"]):
             return [("structure", f"{path}: compiled {a['k']} of {len(a.get('v', []))} vs interpreted {b['k']} of {len(b.get('v', []))}")]
         out = []
         for i, (x, y) in enumerate(zip(a["v"], b["v"])):
-            out += compare(x, y, f"{path}[{i}]")
+            out += compare(x, y, f"{path}[{i}]", floor, tol)
         return out
     if a["k"] == "none" or b["k"] == "none":
         return [] if a["k"] == b["k"] else [("structure", f"{path}: compiled {a['k']} vs interpreted {b['k']}")]
@@ -179,14 +194,14 @@ def compare(a, b, path="result"):
         ok = ok & ~inf
     if not ok.any():
         return []
-    scale = max(float(np.max(np.abs(x[ok]))), float(np.max(np.abs(y[ok]))), 1e-300)
+    scale = max(float(np.max(np.abs(x[ok]))), float(np.max(np.abs(y[ok]))), floor, 1e-300)
     dev = np.where(ok, np.abs(np.where(ok, x, 0) - np.where(ok, y, 0)), 0.0)
-    if dev.max() > TOL * scale:
+    if dev.max() > tol * scale:
         i = int(np.argmax(dev))
         return [(
             "value",
             f"{path}: flat index {i}: compiled {x[i]!r} vs interpreted {y[i]!r}, |diff| {dev[i]:.3e} = "
-            f"{dev[i] / scale:.3e} of the array scale {scale:.3e} (tolerance {TOL:g})",
+            f"{dev[i] / scale:.3e} of the array scale {scale:.3e} (tolerance {tol:g})",
         )]
     return []
 
@@ -211,9 +226,10 @@ def _st():
 
 
 def unit():
-    """Values in (0,1) without Hypothesis' float bias towards 0 and the end points."""
+    """Uniform values in (0,1): a numpy Generator seeded by a Hypothesis-drawn integer (Hypothesis' own float and integer
+    strategies over-sample 0 and the end points, which would put half of the moments on the real axis)."""
     st = _st()
-    return st.integers(0, 10**6).map(lambda k: (k + 0.5) / (10**6 + 1))
+    return st.integers(0, 2**32 - 1).map(lambda s: float(np.random.default_rng(s).uniform(1e-9, 1 - 1e-9)))
 
 
 def st_n(singlet=None):
@@ -809,9 +825,10 @@ def _grid_args(draw, st):
     xmin = 10.0 ** (-1 - 4 * draw(unit()))
     xs = [math.exp(math.log(xmin) * (1 - i / (npts - 1))) for i in range(npts)]
     xs[-1] = 1.0
-    k = draw(st.integers(0, npts - 2))
-    return {"xgrid": xs, "deg": draw(st.integers(1, min(3, npts - 1))), "log": draw(st.booleans()),
-            "j": draw(st.integers(0, npts - 1)), "k": k}
+    j = draw(st.integers(0, npts - 1))
+    # the integrand vanishes identically when x lies above the support of basis function j: mostly pick x_k <= x_j
+    k = draw(st.one_of(st.integers(0, min(j, npts - 2)), st.integers(0, min(j, npts - 2)), st.integers(0, npts - 2)))
+    return {"xgrid": xs, "deg": draw(st.integers(1, min(3, npts - 1))), "log": draw(st.booleans()), "j": j, "k": k}
 
 
 def strat_quad_ker_ad(tier):
@@ -943,10 +960,14 @@ def evaluate(case):
     except Exception as e:  # noqa: BLE001 - outcome of the code under test, compared between the two modes
         import traceback
 
+        # Interpreted: an exception whose traceback never enters the tree under test comes from this file (argument
+        # preparation) and is a harness bug -> propagate (exit 2).  Compiled code leaves no Python frames, so in JIT mode
+        # every exception is an outcome; a harness bug would already have surfaced in the interpreted evaluation of the
+        # same case.
         tb = traceback.extract_tb(e.__traceback__)
         in_harness_only = all("/vf/" in fr.filename for fr in tb)
         is_numba = isinstance(e, numba.core.errors.NumbaError)
-        if in_harness_only and not is_numba:
+        if in_harness_only and not is_numba and numba.config.DISABLE_JIT:
             raise
         return {"exc": type(e).__name__, "numba": bool(is_numba), "msg": str(e)[:1500]}
     return {"ok": encode(raw)}
@@ -1065,7 +1086,7 @@ def judge(case, ra, rb):
             + "; interpreted " + (f"raised {eb}: {rb['msg'][:300]}" if eb else "returned a value"),
         )
         return res
-    diffs = compare(ra["ok"], rb["ok"])
+    diffs = compare(ra["ok"], rb["ok"], floor=SCALE_FLOOR.get(g, 0.0), tol=TOL_GROUP.get(g, TOL))
     res.nontrivial = is_float_result(rb["ok"])
     for kind, msg in diffs[:3]:
         res.fail(f"{ID}/{kind}/{g}/{fn}", f"{what}: {msg}")
